@@ -24,27 +24,83 @@ def is_pending_cell(body, op):
     return T.path_has(body, op, ".pending_action")
 
 
-def run(ck):
+def take_and_reset(ck, C, dl):
     f = ck.facts
-    dl = DispatchLoop(ck, "1")
     b = dl.body
     # ---- clause 1: take-and-reset on every exit ----------------------------------------------
     resets = [cs for cs in T.calls(b, name=("replace", "set", "take"), path="std::cell::Cell") if is_pending_cell(b, cs.args[0])]
     resets_in_loop = [cs for cs in resets if cs.bb in dl.blocks]
     if not resets_in_loop:
-        ck.anchor_missing("1", "T2-all-exits", "reset of the deferred-action cell in the batch loop")
+        ck.anchor_missing(C, "T2-all-exits", "reset of the deferred-action cell in the batch loop")
         raise AnchorMissing("reset")
     bad = T.t2_all_exits(b, [dl.pe.to], [cs.bb for cs in resets_in_loop], exits=dl.exits)
     descr = "after:dyn EventDispatcher::process_events/pass:Cell<PostAction>::replace|set|take(pending_action)"
     if bad is None:
-        ck.ok("1", "T2-all-exits", b, descr, "every path from the return of process_events to a return or to the next iteration consumes the deferred-action cell (error exit included)", site=b.where(dl.pe.bb))
+        ck.ok(C, "T2-all-exits", b, descr, "every path from the return of process_events to a return or to the next iteration consumes the deferred-action cell (error exit included)", site=b.where(dl.pe.bb))
     else:
-        ck.violation("1", "T2-all-exits", b, descr, "a path leaves the iteration after process_events without resetting pending_action (a deferred Disable/Reregister would be applied to a later, unrelated source)", site=b.where(dl.pe.bb), path=path_descr(b, bad))
+        ck.violation(C, "T2-all-exits", b, descr, "a path leaves the iteration after process_events without resetting pending_action (a deferred Disable/Reregister would be applied to a later, unrelated source)", site=b.where(dl.pe.bb), path=path_descr(b, bad))
     # the value written by the reset is Continue
     for cs in resets_in_loop:
         if cs.name in ("replace", "set"):
             v = T.agg_variant(b, cs.args[1])
-            ck.verdict(v == {(PA, "Continue")}, "1", "T6-provenance", b, "reset-value@" + cs.name, "the cell is reset to PostAction::Continue", "the cell is reset to %s, not to Continue" % sorted(v), site=b.where(cs.bb))
+            ck.verdict(v == {(PA, "Continue")}, C, "T6-provenance", b, "reset-value@" + cs.name, "the cell is reset to PostAction::Continue", "the cell is reset to %s, not to Continue" % sorted(v), site=b.where(cs.bb))
+
+    return resets, resets_in_loop
+
+
+def who_may_defer(ck, C, b):
+    f = ck.facts
+    # ---- clause 4: who may defer ---------------------------------------------------------------
+    writers = {}
+    for body in f.bodies.values():
+        for cs in T.calls(body, name=("set", "replace", "take", "swap"), path="std::cell::Cell"):
+            if is_pending_cell(body, cs.args[0]):
+                writers.setdefault(body.qual, []).append(cs)
+        for i, j, st in body.statements():
+            if st["s"] == "assign" and st["rv"]["r"] == "agg" and st["rv"].get("adt") == "loop_logic::LoopInner":
+                writers.setdefault(body.qual, []).append(("init", i, j, st))
+    expected = {"EventLoop::try_new", "LoopHandle::update", "LoopHandle::disable", b.qual}
+    for q in sorted(set(writers) - expected):
+        ck.violation(C, "T7-who-may-write", q, "writer-of:pending_action", "unexpected writer of the deferred-action cell (only try_new, update, disable and the dispatch loop may write it)", site=f.by_qual[q][0].where())
+    for q in sorted(expected):
+        if q in writers:
+            ck.ok(C, "T7-who-may-write", q, "writer-of:pending_action", "expected writer of the deferred-action cell", nontrivial=False)
+    ck.floor(C, "writers of pending_action", len(set(writers) & expected), 4)
+    for q, want, meth in (("LoopHandle::update", "Reregister", "reregister"), ("LoopHandle::disable", "Disable", "unregister")):
+        body = f.body(q)
+        if body is None or q not in writers:
+            ck.anchor_missing(C, "T4-guarded-by", q + " stores the deferred request")
+            continue
+        dcs = T.calls(body, name=meth, trait="EventDispatcher", self_kind=("dyn",))
+        for cs in writers[q]:
+            if isinstance(cs, tuple):
+                continue
+            v = T.agg_variant(body, cs.args[1]) if len(cs.args) > 1 else set()
+            ck.verdict(v == {(PA, want)}, C, "T6-provenance", body, "deferred-value", "%s defers PostAction::%s" % (q, want), "%s defers %s instead of %s" % (q, sorted(v), want), site=body.where(cs.bb))
+            ok = False
+            for d in dcs:
+                for s2, mode in T.call_result_switches(body, d.bb):
+                    if mode != "bool":
+                        continue
+                    if T.reachable_only_via(body, cs.bb, T.edges_of_value(body, s2, False)):
+                        ok = True
+            ck.verdict(ok, C, "T4-guarded-by", body, "defer-only-if:%s-answered-false" % meth, "the request is deferred only when the dispatcher answered false (it is being dispatched)", "the deferred request is stored although the dispatcher did not answer false (it would be applied to whatever source is dispatched next)", site=body.where(cs.bb))
+        # and the false answer must lead to the store (the request may not be dropped)
+        for d in dcs:
+            for s2, mode in T.call_result_switches(body, d.bb):
+                if mode != "bool":
+                    continue
+                starts = [t for _, t in T.edges_of_value(body, s2, False)]
+                bad = T.t2_all_exits(body, starts, [cs.bb for cs in writers[q] if not isinstance(cs, tuple)])
+                ck.verdict(bad is None, C, "T2-all-exits", body, "false-answer-must-defer", "every path from the false answer stores the deferred request", "the false answer of the dispatcher can return without storing the deferred request (a self-directed %s would be lost)" % q.split("::")[-1], site=body.where(d.bb), path=path_descr(body, bad) if bad else None)
+
+
+
+def run(ck):
+    f = ck.facts
+    dl = DispatchLoop(ck, "1")
+    b = dl.body
+    resets, resets_in_loop = take_and_reset(ck, "1", dl)
 
     # ---- clause 2: merge only over Continue ---------------------------------------------------
     takes = [cs for cs in resets_in_loop if cs.name in ("replace", "take")]
@@ -131,49 +187,7 @@ def run(ck):
         ck.ok("3", "T2-all-exits", b, "arm:Remove/must-clear", "every path through the Remove arm clears the slot", site=b.where(sw))
     ck.floor("3", "post-action arms with an effect", len(rereg) + len(unreg_disable) + len(rem_stores), 3)
 
-    # ---- clause 4: who may defer ---------------------------------------------------------------
-    writers = {}
-    for body in f.bodies.values():
-        for cs in T.calls(body, name=("set", "replace", "take", "swap"), path="std::cell::Cell"):
-            if is_pending_cell(body, cs.args[0]):
-                writers.setdefault(body.qual, []).append(cs)
-        for i, j, st in body.statements():
-            if st["s"] == "assign" and st["rv"]["r"] == "agg" and st["rv"].get("adt") == "loop_logic::LoopInner":
-                writers.setdefault(body.qual, []).append(("init", i, j, st))
-    expected = {"EventLoop::try_new", "LoopHandle::update", "LoopHandle::disable", b.qual}
-    for q in sorted(set(writers) - expected):
-        ck.violation("4", "T7-who-may-write", q, "writer-of:pending_action", "unexpected writer of the deferred-action cell (only try_new, update, disable and the dispatch loop may write it)", site=f.by_qual[q][0].where())
-    for q in sorted(expected):
-        if q in writers:
-            ck.ok("4", "T7-who-may-write", q, "writer-of:pending_action", "expected writer of the deferred-action cell", nontrivial=False)
-    ck.floor("4", "writers of pending_action", len(set(writers) & expected), 4)
-    for q, want, meth in (("LoopHandle::update", "Reregister", "reregister"), ("LoopHandle::disable", "Disable", "unregister")):
-        body = f.body(q)
-        if body is None or q not in writers:
-            ck.anchor_missing("4", "T4-guarded-by", q + " stores the deferred request")
-            continue
-        dcs = T.calls(body, name=meth, trait="EventDispatcher", self_kind=("dyn",))
-        for cs in writers[q]:
-            if isinstance(cs, tuple):
-                continue
-            v = T.agg_variant(body, cs.args[1]) if len(cs.args) > 1 else set()
-            ck.verdict(v == {(PA, want)}, "4", "T6-provenance", body, "deferred-value", "%s defers PostAction::%s" % (q, want), "%s defers %s instead of %s" % (q, sorted(v), want), site=body.where(cs.bb))
-            ok = False
-            for d in dcs:
-                for s2, mode in T.call_result_switches(body, d.bb):
-                    if mode != "bool":
-                        continue
-                    if T.reachable_only_via(body, cs.bb, T.edges_of_value(body, s2, False)):
-                        ok = True
-            ck.verdict(ok, "4", "T4-guarded-by", body, "defer-only-if:%s-answered-false" % meth, "the request is deferred only when the dispatcher answered false (it is being dispatched)", "the deferred request is stored although the dispatcher did not answer false (it would be applied to whatever source is dispatched next)", site=body.where(cs.bb))
-        # and the false answer must lead to the store (the request may not be dropped)
-        for d in dcs:
-            for s2, mode in T.call_result_switches(body, d.bb):
-                if mode != "bool":
-                    continue
-                starts = [t for _, t in T.edges_of_value(body, s2, False)]
-                bad = T.t2_all_exits(body, starts, [cs.bb for cs in writers[q] if not isinstance(cs, tuple)])
-                ck.verdict(bad is None, "4", "T2-all-exits", body, "false-answer-must-defer", "every path from the false answer stores the deferred request", "the false answer of the dispatcher can return without storing the deferred request (a self-directed %s would be lost)" % q.split("::")[-1], site=body.where(d.bb), path=path_descr(body, bad) if bad else None)
+    who_may_defer(ck, "4", b)
 
     # ---- clause 5: combination law --------------------------------------------------------------
     bo = f.body("<PostAction as BitOr>::bitor")
